@@ -1,6 +1,7 @@
 package main
 
 import (
+	"os"
 	"fmt"
 	"math/rand"
 	"sort"
@@ -37,9 +38,27 @@ type scenario struct {
 	// their violations carry the scenario name in the signature and the property named here
 	only []string
 	prop string
+	scale  int      // time unit = scale x 10 ms (default 1); directed scenarios use a coarser unit to be robust under load
+	stall  float64  // duration of the stall in time units (default 1.5)
+	sigs   []string // if set: only these kinds of log-check violations count for this scenario
+	repeat int      // run each designated stall this many times (for outcomes that depend on a random select)
 }
 
 var scenarios = []scenario{
+	// C08: the response handler is slow (stalled 1.5 T): the reply was in time, so the request must not also time out
+	{name: "c-slow-resp-handler", ops: []scOp{{0, "send", ""}, {0.3, "send", ""}},
+		reply: map[string]float64{"r1": 0.2, "r2": 0.1}, end: 3.2, only: []string{"handler.resp|1"}, prop: "C08", scale: 4,
+		sigs: []string{"concluded-twice", "timeout-early", "timeout-of-unwritten", "never-concluded"}},
+	// C02: a completion for a request that is no longer the queue head (its reply raced the time-out) must not touch the head:
+	// r1 (reply at 0.8 T, its pending lookup stalled 0.5 T), r2, r3 queued; r2 must stay the only outstanding CALL until it is answered
+	{name: "c-stale-completion", ops: []scOp{{0, "send", ""}, {0.1, "send", ""}, {0.2, "send", ""}},
+		reply: map[string]float64{"r1": 0.8, "r2": 0.6, "r3": 0.1}, end: 4.0, only: []string{"state.Get>|1"}, prop: "C02", scale: 4, stall: 0.5,
+		sigs: []string{"two-outstanding", "written-twice", "write-order"}},
+	// C07: a write fails, its cancel callback is slow (the ready slot is full meanwhile), the link reports disconnect then
+	// reconnect: Resume has to wait for the pump but everything returns and later requests are served
+	{name: "c-resume-full-slot", ops: []scOp{{0, "writefail-on", ""}, {0.05, "send", ""}, {0.3, "disconnect", ""}, {0.4, "writefail-off", ""}, {0.5, "connect", ""}, {2.2, "send", ""}},
+		reply: map[string]float64{"r2": 0.1}, end: 4.0, only: []string{"handler.cancel|1"}, prop: "C07", scale: 4,
+		sigs: []string{"never-concluded"}},
 	// the connection drops while the dispatcher is inside Write (which then fails); two more requests follow while
 	// disconnected; after the reconnection both must be written and answered (C10)
 	{name: "c-drop-during-write", ops: []scOp{{0, "send", ""}, {0.3, "disconnect", ""}, {0.4, "send", ""}, {0.45, "send", ""}, {2.0, "connect", ""}},
@@ -92,7 +111,14 @@ type schedResult struct {
 }
 
 func runScenario(sc scenario, stallSite string, stallIdx int) schedResult {
+	schedT := schedT
+	if sc.scale > 1 {
+		schedT = schedT * time.Duration(sc.scale)
+	}
 	stall := schedT * 3 / 2
+	if sc.stall > 0 {
+		stall = time.Duration(sc.stall * float64(schedT))
+	}
 	if strings.HasSuffix(sc.name, "/calm") {
 		stall = schedT * 15 / 100
 	}
@@ -265,21 +291,71 @@ func runScenario(sc scenario, stallSite string, stallIdx int) schedResult {
 	}
 	l.rmu.Unlock()
 	res.Events = len(evs)
+	if os.Getenv("SCHED_DEBUG") != "" {
+		for _, e := range evs {
+			fmt.Fprintf(os.Stderr, "%8.2f %s %s %s\n", float64(e.t.Sub(start))/float64(schedT), e.kind, e.client, e.id)
+		}
+	}
 	if wedged || len(stuck) > 0 || !quiet {
 		var where []string
 		for _, g := range libGoroutines() {
 			where = append(where, g.state+" @ "+g.top+" "+g.where)
 		}
 		sort.Strings(where)
-		// (directed scenarios too: a deadlock is C07's business and is matched against its known findings)
+		// (directed scenarios too: a deadlock is C07's business and is matched against its known findings — except the
+		// directed scenarios of C07 itself, which are deterministic and clean on the unchanged tree)
+		if sc.prop == "C07" {
+			viol("C07", sc.name+"/"+sigOfBlocked(where), fmt.Sprintf("the endpoint did not go idle: API callers wedged=%v, goroutines blocked for ever: %v", wedged, where), where)
+			return res
+		}
 		viol("C07", sigOfBlocked(where), fmt.Sprintf("the endpoint did not go idle: API callers wedged=%v, goroutines blocked for ever: %v", wedged, where), where)
 	} else {
+		if sc.prop != "" && contains(sc.sigs, "two-outstanding") {
+			// independent of the queue's own bookkeeping: the next CALL on a connection may only be written once the previous
+			// one was answered (the harness knows when it sent the reply), failed or timed out
+			lastW := map[string]sev{}
+			ended := map[string]bool{} // client|id concluded by a write failure, or dropped
+			for _, e := range evs {
+				switch e.kind {
+				case "cancel-write":
+					ended[e.client+"|"+e.id] = true
+				case "disconnect", "disconnect-event", "stop":
+					for k := range lastW {
+						if k == e.client || e.client == "" {
+							delete(lastW, k)
+						}
+					}
+				case "wrote":
+					if p, ok := lastW[e.client]; ok && !ended[p.client+"|"+p.id] {
+						d, has := sc.reply[p.id]
+						if !has {
+							d = 0.1
+						}
+						if d < 0 || d > 1 {
+							d = 1
+						}
+						min := time.Duration((d - 0.08) * float64(schedT))
+						if gap := e.t.Sub(p.t); gap < min {
+							kind := "client"
+							if sc.server {
+								kind = "server"
+							}
+							viol(sc.prop, sc.name+"/two-outstanding:"+kind, fmt.Sprintf("%s: CALL %s was written to %q %.2f T after CALL %s, which was answered only %.2f T after its write and had not timed out: two CALLs outstanding", sc.name, e.id, e.client, float64(gap)/float64(schedT), p.id, d), nil)
+						}
+					}
+					lastW[e.client] = e
+				}
+			}
+		}
 		checkLog(sc.name, evs, schedT, true, func(prop, sig, what string, replay interface{}) {
 			kind := "client"
 			if sc.server {
 				kind = "server"
 			}
 			if sc.prop != "" {
+				if len(sc.sigs) > 0 && !contains(sc.sigs, sig) {
+					return // not what this directed scenario is about (e.g. a known double conclusion it provokes on purpose)
+				}
 				viol(sc.prop, sc.name+"/"+sig+":"+kind, what, replay)
 				return
 			}
@@ -327,7 +403,13 @@ func init() {
 					p := strings.Split(o, "|")
 					var j int
 					fmt.Sscan(p[1], &j)
-					all = append(all, encodeRun(schedRun{i, p[0], j}))
+					rep := scenarios[i].repeat
+					if rep < 1 {
+						rep = 1
+					}
+					for k := 0; k < rep; k++ {
+						all = append(all, encodeRun(schedRun{i, p[0], j}))
+					}
 				}
 				continue
 			}
